@@ -1828,3 +1828,44 @@ Proof. rewrite readq_ok. unfold send_to. cbn [negb andb]. destruct (_ <? _); dis
 Theorem send_after_close_refuted :
   exists c qlen, send_to true (c_unmap c) qlen = SendPanic.
 Proof. exists (mkConn 1 [] false true false 0), 4. reflexivity. Qed.
+
+(* ---------- a length field above any bound ---------- *)
+Lemma length_unsigned_ok : length_unsigned = true.
+Proof. reflexivity. Qed.
+
+Theorem length_never_negative raw : alloc_len length_unsigned raw = Some raw.
+Proof. unfold alloc_len. now rewrite length_unsigned_ok. Qed.
+
+Theorem length_signed_refuted : alloc_len false 2147483648 = None /\ alloc_len false 4294967295 = None.
+Proof. split; reflexivity. Qed.
+
+(* a header that announces more bytes than the trunk will ever carry: no frame is made of it — the reader waits,
+   and when the trunk ends it sees an end-of-file (nothing of the payload came) or a cut payload *)
+Theorem oversized_length_is_no_frame a b c d e f g h rest :
+  lenN rest < u32 e f g h ->
+  parse_one (a :: b :: c :: d :: e :: f :: g :: h :: rest) = if lenN rest =? 0 then PNoPayload else PShortPayload.
+Proof.
+  intros H. cbn [parse_one]. rewrite (splitN_short (u32 e f g h) rest) by lia.
+  destruct (lenN rest =? u32 e f g h) eqn:E; [apply N.eqb_eq in E; lia|reflexivity].
+Qed.
+
+(* … and the reader fails stop on it: the Mux is closed, an error or end-of-file is latched, nothing is queued *)
+Theorem oversized_length_fails_stop s a b c d e f g h rest :
+  m_blocked s = false -> m_reader_done s = false -> m_closed s = false ->
+  m_rx s = a :: b :: c :: d :: e :: f :: g :: h :: rest -> lenN rest < u32 e f g h ->
+  let s' := reader_step s in
+  m_closed s' = true /\ m_reader_done s' = true /\ m_err s' <> None /\
+  forall id, queue_in id s' = queue_in id s.
+Proof.
+  intros Hb Hd Hc Hrx Hlen. cbn zeta. unfold reader_step. rewrite Hb, Hd, Hc, Hrx, (oversized_length_is_no_frame _ _ _ _ _ _ _ _ _ Hlen).
+  assert (H : forall e0, m_closed (fail_reader e0 s) = true /\ m_reader_done (fail_reader e0 s) = true /\
+            m_err (fail_reader e0 s) <> None /\ forall id, queue_in id (fail_reader e0 s) = queue_in id s).
+  { intros e0. unfold fail_reader. cbn [m_closed m_reader_done m_err set_reader_done]. repeat split.
+    - apply do_close_closed.
+    - rewrite do_close_err. apply latch_err.
+    - intros id. unfold queue_in. cbn [m_conns set_reader_done]. unfold do_close, latch.
+      destruct (m_err s); cbn [m_closed set_err]; rewrite Hc; cbn [m_conns set_closed set_conns set_err];
+        rewrite find_conn_map by apply keeps_closemapped;
+        (destruct (find_conn id (m_conns s)) as [c0|]; [|reflexivity]); cbn [option_map]; destruct (c_mapped c0); reflexivity. }
+  destruct (lenN rest =? 0); apply H.
+Qed.
